@@ -232,6 +232,9 @@ def gen_cases(tier, rng):
     quick = tier == "quick"
     # --- document texts: oracle + correspondence
     texts = list(SKELETON_TEXTS)
+    texts += tb.cdata_edge_texts()
+    fnt = [t for t, c in tb.foreign_named_texts() if c is None]
+    texts += fnt[::(16 if quick else 2)]
     texts += directed_docs(rng, 2500 if quick else 150000)
     texts += [tb.random_html(rng, rng.randint(1, 30)) for _ in range(1500 if quick else 80000)]
     for s in texts:
